@@ -99,4 +99,16 @@ Inductive wrapper :=
 | WUnknownWrapper (src : bstr).
 
 (* integer readers: ReadInt8 = int8(dec.ReadInt64()) *)
-Inductive reader := RdConv (k : ikind) (base : bstr) | RdPrimitive | RdUnknown (src : bstr).
+Inductive reader :=
+| RdConv (k : ikind) (base : bstr)        (* return T(dec.<base>()) *)
+| RdPrimitive                            (* the digit loops: ReadInt64 / ReadUint64 / readUint64 (body recognised verbatim) *)
+| RdParseFloat (bits : N)                (* strconv.ParseFloat(<text up to ';'>, bits), error recorded, result converted to that width *)
+| RdUnknown (src : bstr).
+
+(* the string parsers behind the 'u' / 's' arms and the converters: which library function, which arguments *)
+Inductive parser :=
+| PsStrconv (fn : bstr) (base : N) (bits_param : bool)    (* strconv.<fn>(s[, base][, bitSize]) ; error -> dec.Error *)
+| PsFloat (bits : N)                                      (* strconv.ParseFloat(s, bits), result converted to that width *)
+| PsComplex (bits : N)                                    (* complexconv.ParseComplex(s, bits) *)
+| PsBig (ty : bstr) (base10 : bool)                       (* new(big.<ty>).SetString(s[, 10]); !ok -> decodeStringError, nil *)
+| PsUnknown (src : bstr).
